@@ -1,7 +1,310 @@
 package main
 
 // replay.go: replaying solver models against the real code.
+//
+// A function under contract may have a replay template /verif/replaytpl/<report name>.tmpl: a Go test (in the
+// function's package) with {{name}} placeholders, preceded by header lines
+//
+//	//govc:dir <package directory relative to the repository root>
+//	//govc:value <name> <int|bool|string> <spec expression over the function's entry state>
+//	//govc:require <spec expression>        (the model must make it true, else the model is outside the template)
+//
+// When an obligation of that function is refuted with a model (sat), the values of the expressions are read from
+// the model with (get-value), substituted into the template, and the test is run in-package against the tree under
+// test through `go test -overlay`. The template's own assertions restate the failing clause in Go: the violation
+// counts as replayed only if the test FAILS on the real code.
+
+import (
+	"context"
+	"encoding/json"
+	"fmt"
+	"os"
+	"os/exec"
+	"path/filepath"
+	"regexp"
+	"strings"
+	"time"
+)
+
+type replayValue struct {
+	Name, Kind, Expr string
+	Term, Sort       string
+}
+
+type replayPlan struct {
+	Dir      string
+	Values   []replayValue
+	Requires []replayValue // Kind bool
+	Body     string
+	File     string
+}
+
+func loadReplayTemplate(verif, repName string) *replayPlan {
+	path := filepath.Join(verif, "replaytpl", repName+".tmpl")
+	data, err := os.ReadFile(path)
+	if err != nil {
+		return nil
+	}
+	pl := &replayPlan{File: path}
+	var body []string
+	for _, l := range strings.Split(string(data), "\n") {
+		t := strings.TrimSpace(l)
+		switch {
+		case strings.HasPrefix(t, "//govc:dir "):
+			pl.Dir = strings.TrimSpace(strings.TrimPrefix(t, "//govc:dir "))
+		case strings.HasPrefix(t, "//govc:value "):
+			fs := strings.Fields(strings.TrimPrefix(t, "//govc:value "))
+			if len(fs) >= 3 {
+				pl.Values = append(pl.Values, replayValue{Name: fs[0], Kind: fs[1], Expr: strings.Join(fs[2:], " ")})
+			}
+		case strings.HasPrefix(t, "//govc:require "):
+			pl.Requires = append(pl.Requires, replayValue{Name: fmt.Sprintf("req%d", len(pl.Requires)), Kind: "bool", Expr: strings.TrimSpace(strings.TrimPrefix(t, "//govc:require "))})
+		default:
+			body = append(body, l)
+		}
+	}
+	pl.Body = strings.Join(body, "\n")
+	if pl.Dir == "" {
+		return nil
+	}
+	return pl
+}
+
+// bindReplay translates the template's expressions in the entry environment of the function.
+func (x *Exec) bindReplay(pl *replayPlan, env *specEnv) (ok bool) {
+	defer func() {
+		if r := recover(); r != nil {
+			if _, isU := r.(unsupportedErr); isU {
+				ok = false
+				return
+			}
+			panic(r)
+		}
+	}()
+	tr := func(v *replayValue) {
+		e, err := parseSpecExpr(v.Expr)
+		if err != nil {
+			panic(unsupported("replay template: " + err.Error()))
+		}
+		val := env.value(e)
+		v.Term, v.Sort = val.T, val.Sort
+	}
+	for i := range pl.Values {
+		tr(&pl.Values[i])
+	}
+	for i := range pl.Requires {
+		tr(&pl.Requires[i])
+	}
+	return true
+}
+
+
+// parseGetValue parses "((t1 v1) (t2 v2) ...)" into the list of value strings, in order.
+func parseGetValue(out string) []string {
+	i := strings.Index(out, "((")
+	if i < 0 {
+		return nil
+	}
+	s := out[i+1:]
+	var vals []string
+	depth := 0
+	start := -1
+	for j := 0; j < len(s); j++ {
+		switch s[j] {
+		case '(':
+			if depth == 0 {
+				start = j
+			}
+			depth++
+		case ')':
+			depth--
+			if depth == 0 && start >= 0 {
+				pair := s[start+1 : j]
+				vals = append(vals, lastSExpr(pair))
+				start = -1
+			}
+			if depth < 0 {
+				return vals
+			}
+		}
+	}
+	return vals
+}
+
+// lastSExpr returns the last top-level s-expression of "term value".
+func lastSExpr(pair string) string {
+	pair = strings.TrimSpace(pair)
+	if strings.HasSuffix(pair, ")") {
+		depth := 0
+		for j := len(pair) - 1; j >= 0; j-- {
+			switch pair[j] {
+			case ')':
+				depth++
+			case '(':
+				depth--
+				if depth == 0 {
+					return pair[j:]
+				}
+			}
+		}
+	}
+	if k := strings.LastIndexAny(pair, " \t\n"); k >= 0 {
+		return pair[k+1:]
+	}
+	return pair
+}
+
+func smtIntValue(v string) (string, bool) {
+	v = strings.TrimSpace(v)
+	if m := regexp.MustCompile(`^\(\s*-\s*(\d+)\s*\)$`).FindStringSubmatch(v); m != nil {
+		return "-" + m[1], true
+	}
+	if regexp.MustCompile(`^\d+$`).MatchString(v) {
+		return v, true
+	}
+	if m := regexp.MustCompile(`^#x([0-9a-fA-F]+)$`).FindStringSubmatch(v); m != nil {
+		var n uint64
+		fmt.Sscanf(m[1], "%x", &n)
+		return fmt.Sprintf("%d", int64(n)), true
+	}
+	return "", false
+}
 
 func (p *Program) tryReplay(work, prop string, r *solveResult, path string) bool {
-	return false
+	if r.Status != "sat" || r.Obl == nil || r.VC == nil {
+		return false
+	}
+	pl := p.replayPlans[r.Obl.Func]
+	if pl == nil {
+		return false
+	}
+	note := func(f string, a ...any) {
+		fh, err := os.OpenFile(path, os.O_APPEND|os.O_WRONLY, 0o644)
+		if err == nil {
+			fmt.Fprintf(fh, "\n--- replay ---\n"+f+"\n", a...)
+			fh.Close()
+		}
+	}
+	// model values of the template's expressions (and of every string literal, to name string values)
+	var terms []string
+	for _, v := range pl.Values {
+		terms = append(terms, v.Term)
+	}
+	for _, v := range pl.Requires {
+		terms = append(terms, v.Term)
+	}
+	var lits []string
+	for lit := range r.VC.strLits {
+		lits = append(lits, lit)
+	}
+	for _, lit := range lits {
+		terms = append(terms, r.VC.strLits[lit])
+	}
+	script := r.VC.script(r.Obl, true)
+	script = strings.Replace(script, "(get-model)\n", "", 1) + "(get-value (" + strings.Join(terms, " ") + "))\n"
+	qf := filepath.Join(work, "replay", sanitize(r.Obl.Name)+".getvalue.smt2")
+	os.WriteFile(qf, []byte(script), 0o644)
+	var out string
+	for _, sv := range []string{"z3-new", "z3"} {
+		ctx, cancel := context.WithTimeout(context.Background(), 30*time.Second)
+		b, _ := exec.CommandContext(ctx, sv, "-T:25", qf).CombinedOutput()
+		cancel()
+		if firstLine(string(b)) == "sat" {
+			out = string(b)
+			break
+		}
+	}
+	if out == "" {
+		note("no model values could be read back (solver did not answer sat on the value query)")
+		return false
+	}
+	vals := parseGetValue(out)
+	if len(vals) != len(terms) {
+		note("could not parse the model values (%d of %d)", len(vals), len(terms))
+		return false
+	}
+	nV, nR := len(pl.Values), len(pl.Requires)
+	litOf := map[string]string{} // model element -> Go string literal
+	for i, lit := range lits {
+		litOf[vals[nV+nR+i]] = lit
+	}
+	for i, rq := range pl.Requires {
+		if vals[nV+i] != "true" {
+			note("the model is outside the replay template's reach (%s is %s)", rq.Expr, vals[nV+i])
+			return false
+		}
+	}
+	src := pl.Body
+	fresh := 0
+	synth := map[string]string{}
+	var bound []string
+	for i, v := range pl.Values {
+		mv := vals[i]
+		var golit string
+		switch v.Kind {
+		case "int":
+			n, ok := smtIntValue(mv)
+			if !ok {
+				note("value of %s is not an integer literal: %s", v.Name, mv)
+				return false
+			}
+			golit = n
+		case "bool":
+			if mv != "true" && mv != "false" {
+				note("value of %s is not a boolean: %s", v.Name, mv)
+				return false
+			}
+			golit = mv
+		case "string":
+			if lit, ok := litOf[mv]; ok {
+				golit = fmt.Sprintf("%q", lit)
+			} else {
+				if _, ok := synth[mv]; !ok {
+					synth[mv] = fmt.Sprintf("govc-s%d", fresh)
+					fresh++
+				}
+				golit = fmt.Sprintf("%q", synth[mv])
+			}
+		default:
+			note("unknown value kind %s", v.Kind)
+			return false
+		}
+		bound = append(bound, v.Name+"="+golit)
+		src = strings.ReplaceAll(src, "{{"+v.Name+"}}", golit)
+	}
+	if strings.Contains(src, "{{") {
+		note("template has unbound placeholders")
+		return false
+	}
+	testFile := filepath.Join(work, "replay", sanitize(r.Obl.Name)+"_replay_test.go")
+	os.WriteFile(testFile, []byte(src), 0o644)
+	// run it in-package against the tree under test
+	ovDir, err := os.MkdirTemp("/var/tmp", "govc-replay.")
+	if err != nil {
+		return false
+	}
+	defer os.RemoveAll(ovDir)
+	repl := map[string]string{}
+	k := 0
+	for real, content := range p.overlayBytes {
+		f := filepath.Join(ovDir, fmt.Sprintf("ov%d.go", k))
+		k++
+		os.WriteFile(f, content, 0o644)
+		repl[real] = f
+	}
+	repl[filepath.Join(p.repo, pl.Dir, "zz_govc_replay_test.go")] = testFile
+	ovb, _ := json.Marshal(map[string]any{"Replace": repl})
+	ovFile := filepath.Join(ovDir, "ov.json")
+	os.WriteFile(ovFile, ovb, 0o644)
+	ctx, cancel := context.WithTimeout(context.Background(), 150*time.Second)
+	defer cancel()
+	cmd := exec.CommandContext(ctx, "go", "test", "-overlay", ovFile, "-vet=off", "-count=1", "-timeout", "60s", "-run", "^TestGovcReplay$", ".")
+	cmd.Dir = filepath.Join(p.repo, pl.Dir)
+	cmd.Env = append(os.Environ(), "GOFLAGS=-mod=mod", "GOPROXY=off", "GOSUMDB=off", "GOTOOLCHAIN=local")
+	b, _ := cmd.CombinedOutput()
+	res := string(b)
+	failed := strings.Contains(res, "--- FAIL: TestGovcReplay")
+	note("inputs from the model: %s\ntest: %s\n(go test -overlay … -run TestGovcReplay in %s)\n%s\nreplayed on the real code: %v",
+		strings.Join(bound, " "), testFile, pl.Dir, trunc(res, 4000), failed)
+	return failed
 }
